@@ -2,6 +2,7 @@ package fs
 
 import (
 	"archive/tar"
+	"io"
 	"os"
 
 	vm "github.com/pojntfx/stfs/internal/verifmodel"
@@ -95,4 +96,66 @@ func Harness_C05_append_only_and_wellformed() {
 	}
 	vm.Cover("C05.something_appended", len(t.Segs) > len(snap.segs))
 	vm.Cover("C05.fault_path", vm.FaultsUsed > 0)
+}
+
+// Harness_C05_batched_archive_is_wellformed: one Operations.Archive call with several entries (a directory and
+// regular files of symbolic sizes 0..3, as `stfs operation archive` passes them when it walks a directory), with and
+// without a compressor: earlier content untouched, whole blocks, every member complete with exactly its content,
+// one trailer at the end.
+func Harness_C05_batched_archive_is_wellformed() {
+	pipes := config.PipeConfig{}
+	if vm.Bool("gzip") {
+		pipes.Compression = config.CompressionFormatGZipKey
+	}
+	v := c10PrestateWith(pipes)
+	t := v.Env.Tape
+	snap := c05Take(t)
+	sizes := []int{vm.Concretize(vm.Int("size0", 0, 3)), vm.Concretize(vm.Int("size1", 0, 3)), vm.Concretize(vm.Int("size2", 0, 3))}
+	names := []string{"/d/p", "/d/q", "/d/r"}
+	members := []config.FileConfig{{
+		GetFile: func() (io.ReadSeekCloser, error) { return &c01Src{}, nil },
+		Info:    c01Info{name: "sub", mode: os.ModeDir | 0o750},
+		Path:    "/d/sub",
+	}}
+	for i, n := range names {
+		data := []byte("xyz")[:sizes[i]]
+		members = append(members, config.FileConfig{
+			GetFile: func() (io.ReadSeekCloser, error) { return &c01Src{data: data}, nil },
+			Info:    c01Info{name: n, size: int64(len(data)), mode: 0o640},
+			Path:    n,
+		})
+	}
+	i := 0
+	_, err := v.Env.WriteOps.Archive(func() (config.FileConfig, error) {
+		if i >= len(members) {
+			return config.FileConfig{}, io.EOF
+		}
+		i++
+		return members[i-1], nil
+	}, config.CompressionLevelFastestKey, false, false)
+	vm.Assert("C05.batched_archive_ok", err == nil)
+	vm.Assert("C05.batched_archive_keeps_earlier_content", c05PrefixIntact(t, snap))
+	vm.Assert("C05.batched_archive_whole_blocks", t.Len%512 == 0)
+	newSegs := t.Segs[len(snap.segs):]
+	nMembers := 0
+	for _, g := range newSegs {
+		if g.Kind == vm.SegMember {
+			nMembers++
+			vm.Assert("C05.batched_member_complete", !g.Open && g.Written == g.Size && g.Size >= 0)
+		}
+	}
+	vm.Assert("C05.batched_archive_one_member_per_entry", nMembers == 4)
+	if len(newSegs) > 0 {
+		vm.Assert("C05.batched_archive_ends_with_trailer", newSegs[len(newSegs)-1].Kind == vm.SegTrailer)
+	}
+	if pipes.Compression == "" {
+		k := 0
+		for _, g := range newSegs {
+			if g.Kind == vm.SegMember && g.Hdr.Typeflag == tar.TypeReg {
+				vm.Assert("C05.batched_member_data_is_the_file", k < 3 && string(g.Data) == "xyz"[:sizes[k]])
+				k++
+			}
+		}
+	}
+	vm.Assert("C05.batched_archive_locks_free", v.Env.LocksFree())
 }
